@@ -36,18 +36,22 @@ __CPROVER_ensures(__CPROVER_return_value == OPUS_BAD_ARG || __CPROVER_return_val
                   __CPROVER_return_value == OPUS_INVALID_PACKET || (0 < __CPROVER_return_value && __CPROVER_return_value <= frame_size))
 /* established in group decode_native_fs*: concealment / FEC of a multiple of 2.5 ms returns exactly the request or an error */
 __CPROVER_ensures(((data == NULL || len == 0 || decode_fec == 1) && __CPROVER_return_value > 0) ==> __CPROVER_return_value == frame_size)
+__CPROVER_ensures((decode_fec < 0 || decode_fec > 1) ==> __CPROVER_return_value == OPUS_BAD_ARG)
+__CPROVER_ensures(len < 0 && data != NULL && decode_fec == 0 ==> __CPROVER_return_value < 0)
 __CPROVER_ensures(verif_n_frame == frame_size && verif_n_fec == decode_fec && verif_n_soft == soft_clip && verif_n_sd == self_delimited && verif_n_len == len &&
                   verif_n_data == (const void *)data && verif_n_calls == __CPROVER_old(verif_n_calls) + 1)
 __CPROVER_ensures(verif_out_valid == (__CPROVER_return_value > 0 && 0 <= verif_K && verif_K < __CPROVER_return_value * st->channels))
 __CPROVER_ensures(verif_out_valid ==> (verif_out_bits == BITS(pcm[verif_K]) && !isnan(pcm[verif_K])))
 ;
-/* trusted stub of the float -> int16 kernel (celt/mathops.c, other TU): writes exactly cnt samples, sample K by FLOAT2INT16 */
-static short verif_i16_K; static int verif_i16_valid;
+/* stub of the float -> int16 kernel (celt/mathops.c, other TU): checks the buffers it is handed and records its
+   arguments; the conversion of one sample is the RES2INT16 lemma of C13 */
+static int verif_f2i_cnt = -1; static const void *verif_f2i_out; static unsigned verif_f2i_in_bits; static int verif_f2i_calls;
 void celt_float2int16_c(const float *in, short *out, int cnt)
 {
    __CPROVER_assert(cnt >= 0 && (cnt == 0 || (__CPROVER_r_ok(in, (size_t)cnt * sizeof(float)) && __CPROVER_w_ok(out, (size_t)cnt * sizeof(short)))), "float->int16 conversion stays inside both buffers");
    if (cnt > 0) __CPROVER_havoc_slice(out, (size_t)cnt * sizeof(short));
-   if (0 <= verif_K && verif_K < cnt) { out[verif_K] = FLOAT2INT16(in[verif_K]); }
+   verif_f2i_cnt = cnt; verif_f2i_out = out; verif_f2i_calls++;
+   if (0 <= verif_K && verif_K < cnt) verif_f2i_in_bits = BITS(in[verif_K]);
 }
 
 #define SETUP_DEC \
@@ -55,7 +59,7 @@ void celt_float2int16_c(const float *in, short *out, int cnt)
    __CPROVER_assume(st != NULL && DEC_OK(st)); \
    __CPROVER_assume(frame_size <= 48000 && len <= 2000); \
    if (!null_data) { __CPROVER_assume(len >= 0); data = malloc(len > 0 ? len : 1); __CPROVER_assume(data != NULL); } \
-   verif_K = nondet_int(); __CPROVER_assume(0 <= verif_K); verif_n_calls = 0; verif_out_valid = 0;
+   verif_K = nondet_int(); __CPROVER_assume(0 <= verif_K); verif_n_calls = 0; verif_out_valid = 0; verif_f2i_calls = 0;
 
 #define COMMON_CHECKS(NAME, SOFT) \
    if (frame_size <= 0) { __CPROVER_assert(ret == OPUS_BAD_ARG && verif_n_calls == 0, NAME ": frame_size <= 0 is refused"); return; } \
@@ -85,8 +89,9 @@ void h_opus_decode(void)
    opus_int16 *pcm = malloc((size_t)(frame_size > 0 ? frame_size : 1) * st->channels * sizeof(opus_int16)); __CPROVER_assume(pcm != NULL);
    ret = opus_decode(st, data, len, pcm, frame_size, fec);
    COMMON_CHECKS("opus_decode", 1)
-   if (ret > 0 && verif_K < ret * st->channels) { float f; unsigned b = verif_out_bits; f = *(float *)&b;
-      __CPROVER_assert(verif_out_valid && pcm[verif_K] == FLOAT2INT16(f), "opus_decode: sample K is the soft-clipped float output scaled by 2^15, rounded and saturated"); }
+   if (ret > 0) __CPROVER_assert(verif_f2i_calls == 1 && verif_f2i_cnt == ret * st->channels && verif_f2i_out == (const void *)pcm, "opus_decode: exactly ret*channels samples are converted into the caller's buffer");
+   else __CPROVER_assert(verif_f2i_calls == 0, "opus_decode: nothing is written on error");
+   if (ret > 0 && verif_K < ret * st->channels) __CPROVER_assert(verif_out_valid && verif_f2i_in_bits == verif_out_bits, "opus_decode: sample K handed to the int16 conversion is sample K of the (soft-clipped) native output");
    CANARY("after decode");
 }
 void h_opus_decode_float(void)
